@@ -29,9 +29,9 @@ Theorem live_realise_fixpoint : forall has_md pn se md i rgs as_cat d,
   predict live has_md pn se md i rgs as_cat = ROk d -> realise (md_tzflag md) d = d.
 Proof. rewrite live_tables_are_pinned. exact realise_fixpoint. Qed.
 
-Theorem live_null_evidence_sound : forall i96 has_md pn se md i rgs d,
+Theorem live_null_evidence_sound : forall R has_md pn se md i rgs d,
   (se_type se < 8)%N ->
-  base_dtype_gen i96 live has_md pn se md i rgs = ROk d ->
-  np_int_or_bool d = true -> has_md && md_claims_int_or_bool md = false ->
-  Forall (no_evidence_rg i) rgs.
+  base_dtype_gen R live has_md pn se md i rgs = ROk d ->
+  np_int_or_bool d = true -> has_md && md_claims_gen (r_cat_md R) md = false ->
+  Forall (no_evidence_rg (r_absent_counts R) i) rgs.
 Proof. rewrite live_tables_are_pinned. exact null_evidence_sound. Qed.
